@@ -25,6 +25,38 @@ class AnalysisError(Exception):
 # small ast helpers
 
 
+def returned_values(fn_node: ast.AST, top_level_only: bool = False) -> List[Tuple[ast.Return, ast.AST]]:
+    """(return statement, returned expression) of a function, looking through the idiom
+           result = <expr>
+           return result
+    Nested function definitions are not entered."""
+    out: List[Tuple[ast.Return, ast.AST]] = []
+
+    def walk(stmts, top):
+        for i, st in enumerate(stmts):
+            if isinstance(st, ast.Return):
+                v = st.value
+                if isinstance(v, ast.Name) and i > 0 and isinstance(stmts[i - 1], ast.Assign) and \
+                        len(stmts[i - 1].targets) == 1 and isinstance(stmts[i - 1].targets[0], ast.Name) and \
+                        stmts[i - 1].targets[0].id == v.id:
+                    v = stmts[i - 1].value
+                if v is not None:
+                    out.append((st, v))
+            elif isinstance(st, (ast.FunctionDef, ast.AsyncFunctionDef, ast.ClassDef)):
+                continue
+            elif not top_level_only:
+                for fld in ("body", "orelse", "finalbody"):
+                    sub = getattr(st, fld, None)
+                    if isinstance(sub, list) and sub and isinstance(sub[0], ast.stmt):
+                        walk(sub, False)
+                for h in getattr(st, "handlers", []) or []:
+                    walk(h.body, False)
+
+    body = fn_node.body if isinstance(getattr(fn_node, "body", None), list) else []
+    walk(body, True)
+    return out
+
+
 def dotted(node: ast.AST) -> Optional[str]:
     """a.b.c -> 'a.b.c' (Names/Attributes only)."""
     parts = []
@@ -120,7 +152,7 @@ class FuncInfo:
 
     def is_refusal(self) -> bool:
         """Body is only `raise NotImplementedError(...)` (an explicit refusal)."""
-        b = self.real_body()
+        b = [st for st in self.real_body() if not isinstance(st, ast.Pass)]
         if len(b) != 1 or not isinstance(b[0], ast.Raise):
             return False
         exc = b[0].exc
